@@ -57,10 +57,31 @@ def called_methods(F, h, depth):
     return out
 
 
+def edt_helper(F, exclude):
+    """private EvaluatedDecisionTable methods are expanded at their call sites (several policies may share one parameterised implementation)"""
+    def f(callee):
+        hh = F.hir.get(callee)
+        if hh is None or not callee.startswith(EDT) or callee in exclude:
+            return None
+        short = callee.split("::")[-1]
+        if short in ("get_result", "get_results", "evaluate_default_output_value") or short.startswith("get_matching_rules"):
+            return None       # the vocabulary of the rule itself
+        return hh
+    return f
+
+
+def effective_returns(fl):
+    """returns of a method with the returns of expanded helpers substituted for `return helper(..)`"""
+    hr = [(d, c, l) for d, c, l, _ in fl.helper_returns]
+    expanded = {n for _, _, _, n in fl.helper_returns}
+    own = [(d, c, l) for d, c, l in fl.returns if not (d and d[0] == "alt") and not any(d == x[0] for x in hr) and not (d and d[0] == "call" and d[1] in expanded)]
+    return own + hr
+
+
 def method_features(F, name, helpers):
     """(collection kinds used, result shape, default path ok, extra facts) of an evaluate_hit_policy_* method"""
     h = F.hir[name]
-    fl = hirflow.Flow(h)
+    fl = hirflow.Flow(h, inline=edt_helper(F, {name}))
     coll = set()
     for c, args, cond, line, node in fl.calls:
         if c in helpers:
@@ -68,7 +89,7 @@ def method_features(F, name, helpers):
     results = []
     default_guard = True
     default_call = EDT + "evaluate_default_output_value"
-    rets = list(fl.returns)
+    rets = effective_returns(fl)
     saw_default = False
     for d, cond, line in rets:
         txt = repr(d)
@@ -376,9 +397,9 @@ def run(F, rep, tier):
         if meth not in F.hir:
             rep.missing_anchor(r6, "evaluation method of %s" % pol)
             continue
-        fl = hirflow.Flow(F.hir[meth])
+        fl = hirflow.Flow(F.hir[meth], inline=edt_helper(F, {meth}))
         gs = set()
-        for d, cond, line in fl.returns:
+        for d, cond, line in effective_returns(fl):
             if d == ("null",):
                 # the conditions under which the method gives up, with the method's own name removed
                 gs.add(repr(tuple((c[0], c[1], c[2]) for c in cond if not (isinstance(c[0], tuple) and c[0] and c[0][0] == "loop-enter"))))
